@@ -677,7 +677,7 @@ func registerStubs(e *Engine) {
 		"go.opentelemetry.io/otel", "(go.opentelemetry.io/otel", "(*go.opentelemetry.io/otel",
 		"github.com/streamingfast/logging/zapx.",
 		"github.com/streamingfast/dmetering.", "(github.com/streamingfast/dmetering.", "(*github.com/streamingfast/dmetering.",
-		"github.com/streamingfast/dstore.With",
+		"github.com/streamingfast/dstore.With", "github.com/streamingfast/sf-tracing.",
 		"github.com/prometheus/client_golang/prometheus.", "(*github.com/prometheus/client_golang/prometheus.", "(github.com/prometheus/client_golang/prometheus.",
 	} {
 		prefixStubs = append(prefixStubs, prefixStub{pfx, func(name string) externalFn {
